@@ -499,6 +499,10 @@ impl<F: Family + 'static> Interp<F> {
                 no_lib(|| {
                     let mut merged = self.issued[*src].clone();
                     merged.extend(self.issued[w].iter().cloned());
+                    // keep the bookkeeping linear: repeated clone_from between the same worlds
+                    // would otherwise double this list every time
+                    merged.sort();
+                    merged.dedup();
                     self.issued[w] = merged;
                 });
                 return Some("ok drops=@".into());
